@@ -477,7 +477,7 @@ def main(mod):
     if argv and argv[0] == '--replay':
         return replay(mod, argv[1])
     t0 = time.time()
-    work = os.path.join(VERIF, '.work', prop + TAG)
+    work = os.path.join(VERIF, '.work', f'{prop}{TAG}-{os.getpid()}')   # per process: concurrent runs do not collide
     shutil.rmtree(work, ignore_errors=True)
     os.makedirs(work, exist_ok=True)
     import_highdicom()
